@@ -20,8 +20,8 @@ pub fn prop() -> Prop {
 fn spec() -> Spec {
     Spec {
         kinds: vec![
-            Kind { name: "single_call", quick: 150_000, thorough: 6_000_000, serial: false },
-            Kind { name: "trajectory", quick: 600, thorough: 40_000, serial: false },
+            Kind { name: "single_call", quick: 600_000, thorough: 15_000_000, serial: false },
+            Kind { name: "trajectory", quick: 2_000, thorough: 60_000, serial: false },
         ],
         rule: "single_call: non-degenerate robot (dof 5/6) x pose (FK of q / random SE(3)) x previous in [-2pi,2pi]^6 (generating, shifted by whole turns, uniform) or the CONSTRAINT_CENTERED sentinel x {no limits, wide limits with weight 0 / 1 / random}; inverse_continuing and inverse_continuing_5dof: nearest 2pi-representative per angle, non-decreasing documented cost, superset of plain inverse (same solver), previous-realises-pose => first answer. trajectory: dense joint-space trajectories (sums of sinusoids inside [-2pi,2pi], step <= 0.03 rad/joint, 200..1500 steps, truncated where elbow/shoulder margins < 0.1); each call's previous is the preceding first answer; first answer must track q(t) and its increments. non-trivial = call returned >= 2 answers (single_call) / trajectory of >= 50 tracked steps; distinct = hash(robot, pose/trajectory seed, previous)",
         assumptions: vec![
@@ -30,7 +30,7 @@ fn spec() -> Spec {
             "'previous realises the pose => first answer' is evaluated for weight 0 / no limits, previous compliant, and wrist/elbow/shoulder measures >= 1e-3",
             "inside the 0.01 degree wrist band J4/J6 are compared through their model-angle sum (t5~0) or difference (t5~pi)",
         ],
-        minimums: vec![("oracle_evals", 1_000_000, 40_000_000), ("trajectory_steps_tracked", 50_000, 3_000_000), ("pi_crossings_tracked", 100, 5_000)],
+        minimums: vec![("oracle_evals", 3_000_000, 80_000_000), ("trajectory_steps_tracked", 150_000, 5_000_000), ("pi_crossings_tracked", 500, 20_000)],
     }
 }
 
